@@ -87,3 +87,22 @@ contract(M + 'warn_symbol', params={'symbol': 'SourceSymbol', 'text': 'any'},
          props=('C11',), modifies=['LOGGER._warning_count'],
          ensures={'C11.warn_symbol.counted_once': 'LOGGER._warning_count == old(LOGGER._warning_count) + 1'})
 inline(ML + 'strict_enabled', ML + 'warnings_enabled', 'giscanner.sourcescanner.SourceSymbol.position')
+
+
+# ---- validation of the annotations of one part of a comment block: diagnoses, never raises -------------------------------------------
+from giscanner import annotationparser as _AP   # noqa
+AV = 'giscanner.annotationparser.GtkDocAnnotatable.'
+contract(AV + '<dynamic>', params={'self': 'GtkDocAnnotatable', 'position': 'Position?', 'ann_name': 'str', 'options': 'any'},
+         trusted=True, modifies=['LOGGER._warning_count'],
+         ensures={'count_monotone': 'LOGGER._warning_count >= old(LOGGER._warning_count)'},
+         note='stands for the ~40 methods _do_validate_<annotation> selected by name in GtkDocAnnotatable.validate: each checks the '
+              'number / spelling of the options of one annotation and only warns (assumed; they are straight-line calls of '
+              '_validate_options / _validate_annotation)')
+contract(AV + 'validate', params={'self': 'GtkDocAnnotatable'}, props=('C11',),
+         modifies=['LOGGER._warning_count'],
+         loops={1: {'index': 'I1', 'modifies': ['LOGGER._warning_count'],
+                    'invariant': ['LOGGER._warning_count >= old(LOGGER._warning_count)'],
+                    'var_types': {'ann_name': 'str'}}},
+         ensures={'C11.validate.only_diagnoses': 'LOGGER._warning_count >= old(LOGGER._warning_count)'},
+         note='no exception for any annotation dictionary the parser can deliver - in particular annotations without options '
+              '((not), (scope) ... have an empty option list); nothing but the diagnostic counter changes')
